@@ -213,6 +213,16 @@ class Check(PropertyCheck):
             return f"v{v}.{name}: the decoded response does not serialise back to the bytes received (frame {obs['rx']})"
         return None
 
+    def extra_checks(self, rep, tier, rng):
+        import ezsptypes as et
+        bad = et.unified_status_violations()
+        rep.cov["unified_status_fields_checked"] = True
+        if bad:
+            v, name, side, field = bad[0]
+            rep.violation({"input": {"version": v, "command": name, "schema": side, "field": field},
+                           "observed": f"{len(bad)} field(s) of the v14+ tables still have a one-byte legacy status type: {bad[:6]}",
+                           "required": "the schemas of a version describe that version's wire format: from EZSP v14 on every status field is the 32-bit unified status"}, found_input=True, signature="tables:legacy-status-in-v14")
+
     def nontrivial(self, case, obs):
         return bool(case.get("_txflat") or case.get("_rxflat"))
 
